@@ -31,6 +31,10 @@ type Obligation struct {
 	// NonTrivial marks obligations that needed more than a syntactic/constant
 	// argument (used for the evidence count distinct_nontrivial).
 	NonTrivial bool `json:"nontrivial,omitempty"`
+	// Alias: the key the same obligation had in the single caller of the
+	// (unexported, directly called) helper it now lives in: a review or known
+	// finding recorded against the caller still names this obligation.
+	Alias []string `json:"alias,omitempty"`
 }
 
 // RuleResult is what a rule returns.
@@ -57,6 +61,19 @@ func (r *RuleResult) bad(key, construct, pos, how string) {
 }
 func (r *RuleResult) undecided(key, construct, pos, how string) {
 	r.add(key, construct, pos, Undecided, how, true)
+}
+
+// alias records, for the obligation added last, the key(s) it would have in the caller of a single-call-site helper.
+func (r *RuleResult) alias(keys ...string) {
+	if len(r.Obs) == 0 {
+		return
+	}
+	o := &r.Obs[len(r.Obs)-1]
+	for _, k := range keys {
+		if k != "" {
+			o.Alias = append(o.Alias, r.Rule+"|"+k)
+		}
+	}
 }
 func (r *RuleResult) count(name string, n int) { r.Analysed[name] += n }
 func (r *RuleResult) floor(name string, n int) { r.Floor[name] = n }
@@ -168,6 +185,7 @@ func resolve(prop string, results []*RuleResult) (*Verdict, error) {
 	v := &Verdict{Property: prop, Results: results}
 	seenKey := map[string]int{}
 	usedKnown := map[string]bool{}
+	usedAlias := map[string]bool{}
 	for _, r := range results {
 		for _, o := range r.Obs {
 			// keys must be unique per run: add ordinal among identical keys
@@ -176,10 +194,35 @@ func resolve(prop string, results []*RuleResult) (*Verdict, error) {
 				o.Key = fmt.Sprintf("%s#%d", o.Key, n)
 			}
 			if o.Status == Violation || o.Status == Undecided {
-				if reason, ok := rev[o.Key]; ok {
+				matched := o.Key
+				if _, ok := rev[o.Key]; !ok {
+					if _, ok := known[o.Key]; !ok {
+						// moved into a single-caller helper: the caller's entry (its n-th, for repeated constructs)
+					alias:
+						for _, a := range o.Alias {
+							for n := 1; n <= 4; n++ {
+								k := a
+								if n > 1 {
+									k = fmt.Sprintf("%s#%d", a, n)
+								}
+								_, inRev := rev[k]
+								_, inKnown := known[k]
+								if (inRev || inKnown) && !usedAlias[k] && seenKey[k] == 0 {
+									usedAlias[k] = true
+									matched = k
+									break alias
+								}
+							}
+						}
+					}
+				}
+				if reason, ok := rev[matched]; ok {
 					o.Status = Reviewed
 					o.How = "reviewed: " + reason
-				} else if k, ok := known[o.Key]; ok {
+					if matched != o.Key {
+						o.How += " [entry " + matched + ": the construct now lives in a helper with that single caller]"
+					}
+				} else if k, ok := known[matched]; ok {
 					o.Status = Known
 					o.How = o.How + " [known finding: " + k.Input + "]"
 					if !usedKnown[k.Key] {
